@@ -34,6 +34,25 @@ func (w *World) mapRanges() []MapRange {
 				continue
 			}
 			walkStack(f.AST, func(n ast.Node, stack []ast.Node) bool {
+				if as, ok := n.(*ast.AssignStmt); ok {
+					// `xs := maps.Keys(m)` / `maps.Values(m)`: a slice in the map's iteration order — the
+					// same hazard as a `range` over the map.  Order-independent only if the slice (or a
+					// plain alias of it) is sorted before anything else looks at it.
+					if xs, expr, ok := mapKeysCall(as); ok {
+						var fn *ast.FuncDecl
+						for _, a := range stack {
+							if fd, ok := a.(*ast.FuncDecl); ok {
+								fn = fd
+							}
+						}
+						name := ""
+						if fn != nil {
+							name = fn.Name.Name
+						}
+						out = append(out, MapRange{File: f.Rel, Func: name, Expr: expr, Cls: classifyKeysSlice(as, xs, stack), pos: as.Pos()})
+					}
+					return true
+				}
 				rs, ok := n.(*ast.RangeStmt)
 				if !ok {
 					return true
@@ -71,6 +90,64 @@ func (w *World) mapRanges() []MapRange {
 		}
 	}
 	return out
+}
+
+// mapKeysCall: `xs := maps.Keys(m)` or `maps.Values(m)` (x/exp/maps or the standard library's maps
+// via slices.Collect is not recognised: it is classified `other`)
+func mapKeysCall(as *ast.AssignStmt) (string, string, bool) {
+	if len(as.Lhs) != 1 || len(as.Rhs) != 1 {
+		return "", "", false
+	}
+	c, ok := unparen(as.Rhs[0]).(*ast.CallExpr)
+	if !ok || len(c.Args) != 1 {
+		return "", "", false
+	}
+	sel, ok := unparen(c.Fun).(*ast.SelectorExpr)
+	if !ok || identName(sel.X) != "maps" || (sel.Sel.Name != "Keys" && sel.Sel.Name != "Values") {
+		return "", "", false
+	}
+	xs := identName(as.Lhs[0])
+	if xs == "" {
+		xs = "<expr>"
+	}
+	return xs, "maps." + sel.Sel.Name + "(..)", true
+}
+
+// classifyKeysSlice: after `xs := maps.Keys(m)`, plain aliases `ys := xs` may follow; the first
+// other statement that mentions xs or an alias must sort it (strict order), else the site is `other`.
+func classifyKeysSlice(as *ast.AssignStmt, xs string, stack []ast.Node) string {
+	if xs == "<expr>" || as.Tok != token.DEFINE {
+		return "other"
+	}
+	rest, ok := following(as, stack)
+	if !ok {
+		return "other"
+	}
+	alias := map[string]bool{xs: true}
+	for _, s := range rest {
+		if a, ok := s.(*ast.AssignStmt); ok && len(a.Lhs) == 1 && len(a.Rhs) == 1 && a.Tok == token.DEFINE {
+			if r := identName(a.Rhs[0]); r != "" && alias[r] && identName(a.Lhs[0]) != "" {
+				alias[identName(a.Lhs[0])] = true
+				continue
+			}
+		}
+		hit := false
+		for n := range alias {
+			if mentions(s, n) {
+				hit = true
+			}
+		}
+		if !hit {
+			continue
+		}
+		for n := range alias {
+			if isSortOf(s, n) {
+				return "collectThenSort"
+			}
+		}
+		return "other" // looked at before it is sorted
+	}
+	return "other" // never sorted in this statement list
 }
 
 // following returns the statements after s in its enclosing statement list.
